@@ -73,15 +73,23 @@ def direct(I, run, name, args, kwargs, node) -> Value:
         if len(args) == 2:
             return App("hof", (C("iter-call"), Tup((args[0], args[1])), Tup(())))
         a = I.resolve(run, args[0])
+        if I.is_generator_obj(run, a):
+            return a
+        if isinstance(a, Ref) and isinstance(run.cell(a), HObj) and run.cell(a).cls in I.index.classes and I.class_lookup(run, run.cell(a).cls, "__iter__") is not None:
+            return I.call(run, I.getattr(run, a, "__iter__", node), [], {}, node)   # iter(obj) is obj.__iter__()
         if isinstance(a, Ref) and isinstance(run.cell(a), HList):
             if run.cell(a).oneshot:
                 return a   # iter(iterator) is the iterator
             return run.alloc(HList(list(run.cell(a).items), oneshot=True))   # a fresh cursor over the same elements
         if isinstance(a, Tup):
             return run.alloc(HList(list(a.items), oneshot=True))
+        if isinstance(a, C) and isinstance(a.v, (str, bytes, bytearray, tuple, list, range)):
+            return run.alloc(HList([C(x) for x in a.v], oneshot=True))
         return a
     if name == "builtins.next":
         a = I.resolve(run, args[0])
+        if I.is_generator_obj(run, a):
+            return I.generator_next(run, a, node, args[1] if len(args) > 1 else None)
         if isinstance(a, Ref) and isinstance(run.cell(a), HList):
             items = run.cell(a).items
             if items:
